@@ -99,6 +99,10 @@ fn main() {
                 cfg.shard = (a.parse().unwrap(), b.parse().unwrap());
                 i += 1;
             }
+            "--events" => {
+                fw::open_event_log(&val(i));
+                i += 1;
+            }
             "--stages" => {
                 cfg.stages = val(i).split(',').map(|s| s.to_string()).collect();
                 i += 1;
@@ -121,6 +125,7 @@ fn main() {
         eprintln!("unknown property {}", prop);
         std::process::exit(2);
     }
+    fw::close_event_log();
     let wall = t0.elapsed().as_secs_f64();
     let js = rep.to_json(&cfg, wall);
     match out {
